@@ -92,25 +92,9 @@ where
     R: rand::Rng + ?Sized,
     C: Collector<M, H::Point>,
     requires
-        options.maxdepth <= 60,
-        options.extra_doublings == 0,
-        options.target_integration_time is Some ==> options.target_integration_time->Some_0.r() > 0real && old(hamiltonian).step() > 0real,
+//@include ../_shared/draw_requires.txt
     ensures
-        final(hamiltonian).step() == old(hamiltonian).step(),
-        forall|a: StateView, b: StateView| final(hamiltonian).turn_spec(a, b) == old(hamiltonian).turn_spec(a, b),
-        final(math).dim_spec() == old(math).dim_spec(),
-        match r {
-            Ok((state, info)) => {
-                // [C03.3] register_draw is called exactly once, with the returned state
-                &&& final(collector).draws() == old(collector).draws().push(state.view())
-                &&& final(init).view().idx == 0 && final(init).view().e0 == final(init).view().energy
-                &&& draw_post(state.view(), info, final(init).view(), final(collector).traj(), final(collector).leapfrogs(),
-                              old(math).dim_spec(), *options)
-                // [C03.3] a model with parameters integrates at least one step whenever maxdepth >= 1
-                &&& (old(math).dim_spec() > 0 && options.maxdepth >= 1 ==> final(collector).leapfrogs() >= 1)
-            },
-            Err(_) => final(collector).draws() == old(collector).draws(),
-        },
+//@include ../_shared/draw_ensures.txt
 { unimplemented!() }
 
 // ------------------------------------------------------------------------------------------
